@@ -122,6 +122,46 @@ fn file_batch(f: &Value, pool: &[String]) -> RecordBatch {
     RecordBatch::try_new(schema, cols.into_iter().map(|c| c.2).collect()).unwrap()
 }
 
+/// the same logical file as NDJSON: keys present per variant (missing columns, struct fields reordered /
+/// missing / extra, NULL structs, nested struct, list of struct, timestamp as text, decimal as number)
+fn file_ndjson(f: &Value, pool: &[String]) -> String {
+    let v = &f["v"];
+    let rows = spec_rows(&f["rows"], pool);
+    let mut out = String::new();
+    for r in &rows {
+        let mut parts: Vec<String> = vec![];
+        let kv = |k: &str, x: &Value| format!("\"{k}\":{x}");
+        let struct_text = |with_in: bool| -> String {
+            let mut fs: Vec<String> = vec![];
+            for ch in v["stv"].as_str().unwrap().chars() {
+                match ch { 'p' => fs.push(kv("p", &r[3])), 'q' => fs.push(kv("q", &r[4])), _ => fs.push("\"r\":7".into()) }
+            }
+            let inv = v["inv"].as_str().unwrap();
+            if with_in && inv != "none" {
+                let inner: Vec<String> = inv.chars().map(|ch| match ch { 'u' => kv("u", &r[6]), 'w' => kv("w", &r[1]), _ => "\"z\":\"z\"".into() }).collect();
+                fs.insert(fs.len() / 2, format!("\"in\":{{{}}}", inner.join(",")));
+            }
+            format!("{{{}}}", fs.join(","))
+        };
+        if v["ha"] == true { parts.push(kv("a", &r[0])); }
+        if v["hb"] == true { parts.push(kv("b", &r[1])); }
+        if v["hs"] == true { parts.push(kv("s", &r[2])); }
+        if v["hst"] == true { parts.push(if r[5] == true { "\"st\":null".into() } else { format!("\"st\":{}", struct_text(true)) }); }
+        if v["hls"] == true { parts.push(format!("\"ls\":[{}]", struct_text(false))); }
+        if v["ht"] == true {
+            parts.push(match r[7].as_i64() { Some(x) => format!("\"t\":\"1970-01-01T00:{:02}:{:02}\"", x / 60, x % 60), None => "\"t\":null".into() });
+        }
+        if v["hm"] == true { parts.push(kv("m", &r[8])); }
+        if v["extra"] == true || parts.is_empty() { parts.push("\"x\":99".into()); }
+        let code = v["order"].as_u64().unwrap() as usize;
+        let k = parts.len();
+        parts.rotate_left(code % k);
+        if code >= 3 { parts.reverse(); }
+        out.push_str(&format!("{{{}}}\n", parts.join(",")));
+    }
+    out
+}
+
 fn table_schema(view: bool) -> Arc<Schema> {
     use arrow::datatypes::TimeUnit;
     let inner = DataType::Struct(Fields::from(vec![Field::new("u", DataType::Int64, true), Field::new("w", DataType::Int64, true)]));
@@ -153,12 +193,18 @@ async fn one_case(acc: &mut Acc, case: &Value) {
     let all = out_rows(&case["all"], &pool);
     let view = case["tview"].as_bool().unwrap_or(false);
     let pred = case["sql"].as_str().unwrap();
+    let json_fmt = case["fmt"].as_str() == Some("json");
+    acc.bump(if json_fmt { "format_ndjson" } else { "format_parquet" }, 1);
     let mem: Arc<dyn ObjectStore> = Arc::new(InMemory::new());
     for (i, f) in case["files"].as_array().unwrap().iter().enumerate() {
         let b = file_batch(f, &pool);
         let lay = json!({"rg": case["rg"], "pg": 2, "stats": "page", "bloom": false, "dict": i % 2 == 0});
-        let data = crate::c24::write_parquet(&b, &lay);
-        mem.put(&Path::from(format!("t/f{i}.parquet")), PutPayload::from(Bytes::from(data))).await.unwrap();
+        if json_fmt {
+            mem.put(&Path::from(format!("t/f{i}.json")), PutPayload::from(Bytes::from(file_ndjson(f, &pool)))).await.unwrap();
+        } else {
+            let data = crate::c24::write_parquet(&b, &lay);
+            mem.put(&Path::from(format!("t/f{i}.parquet")), PutPayload::from(Bytes::from(data))).await.unwrap();
+        }
     }
     for f in case["files"].as_array().unwrap() {
         let v = &f["v"];
@@ -175,7 +221,11 @@ async fn one_case(acc: &mut Acc, case: &Value) {
         let ctx = SessionContext::new_with_config(cfg);
         ctx.register_object_store(&url::Url::parse("mem://c44").unwrap(), mem.clone());
         let url = ListingTableUrl::parse("mem://c44/t/").unwrap();
-        let opts = ListingOptions::new(Arc::new(ParquetFormat::default())).with_file_extension(".parquet");
+        let opts = if json_fmt {
+            ListingOptions::new(Arc::new(datafusion::datasource::file_format::json::JsonFormat::default())).with_file_extension(".json")
+        } else {
+            ListingOptions::new(Arc::new(ParquetFormat::default())).with_file_extension(".parquet")
+        };
         let config = ListingTableConfig::new(url).with_listing_options(opts).with_schema(table_schema(view));
         let base = json!({"kind":"schema","case":case,"config":cfg_bits});
         let table = match ListingTable::try_new(config) { Ok(t) => t, Err(e) => { acc.tool_errors.push(format!("table: {e}")); return; } };
